@@ -503,6 +503,7 @@ def make(world):
     T['tuple'].conv = b_tuple
     T['dict'].conv = b_dict
     T['set'].conv = b_set
+    T['frozenset'].conv = b_set
     T['type'].conv = b_type
     B['NotImplemented'] = NotImplementedVal
     B['True'] = True
